@@ -5,12 +5,14 @@
                         the record that lies inside it (or asks for the entire record) is
                         answered OK with exactly those bytes and one fixed next-record id
   * `selEntry_exact`    fault-free: the loop returns `fin record next` from every loop state
-  * `selEntry_ms`       any fault set with at most `full` (16) answers CAh: error carrying an
-                        injected code, or `fin record next`
+  * `selEntry_ms`       ANY fault set where max_req_len has its floor (`cfg.floor = some 0`: the 17th CAh is
+                        RetryError), at most `full` (16) answers CAh where it has none: error carrying an
+                        injected code, RetryError, or `fin record next`
   * `listLoop_ms`       the listing loop over any entry operation that is safe on the ids the
                         fault-free listing visits
   * `selEntries_ms`     sel_entries
-  * `getAndClear_ms`    get_and_clear_sel_entry: any fault set with fewer C5h answers than fuel
+  * `getAndClear_ms`    get_and_clear_sel_entry: ANY fault set where the loop has a retry budget (exhausted =
+                        RetryError), else any fault set below a position the fuel exceeds
 -/
 import PyIpmi.Lemmas.ProgMulti
 namespace PyIpmi.Prog
@@ -24,6 +26,8 @@ structure SelCfg.Wf (cfg : SelCfg) : Prop where
   shrink : cfg.shrink ≠ 0
   full_lt : cfg.full < cfg.entire
   rec_le : cfg.recLen ≤ cfg.entire
+  floor : cfg.floor = none ∨ cfg.floor = some 0
+  full_pos : 1 ≤ cfg.full
 
 section sel
 variable {β : Type} (cfg : SelCfg) (mk : Nat → Nat → Req) (nextOf : Rsp → Nat) (pay : Rsp → List Nat)
@@ -42,24 +46,35 @@ def SelStorage : Prop :=
 def selEff (m : Nat) : Nat := if m = cfg.entire then cfg.full + 1 else m
 
 theorem selEff_shrink (hw : cfg.Wf) (m : Nat) (hm : m = cfg.entire ∨ m < cfg.entire) (h1 : 2 ≤ selEff cfg m) :
-    selEff cfg (selShrink cfg m) + 1 = selEff cfg m ∧
-      (selShrink cfg m = cfg.entire ∨ selShrink cfg m < cfg.entire) := by
+    ∃ m', selShrink cfg m = some m' ∧ selEff cfg m' + 1 = selEff cfg m ∧ (m' = cfg.entire ∨ m' < cfg.entire) := by
   have hfl := hw.full_lt
   by_cases he : m = cfg.entire
   · have hne : ¬ cfg.full = cfg.entire := by omega
-    have e1 : selShrink cfg m = cfg.full := by simp [selShrink, he]
+    have e1 : selShrink cfg m = some cfg.full := by simp [selShrink, he]
     have e2 : selEff cfg m = cfg.full + 1 := by simp [selEff, he]
     have e3 : selEff cfg cfg.full = cfg.full := by simp [selEff, hne]
-    rw [e1, e2, e3]
-    exact ⟨rfl, Or.inr hfl⟩
+    exact ⟨cfg.full, e1, by rw [e2, e3], Or.inr hfl⟩
   · have hlt : m < cfg.entire := by rcases hm with h | h; exact absurd h he; exact h
     have e2 : selEff cfg m = m := by simp [selEff, he]
     have hne : ¬ m - 1 = cfg.entire := by omega
-    have e1 : selShrink cfg m = m - 1 := by simp [selShrink, he, hw.step]
-    have e3 : selEff cfg (m - 1) = m - 1 := by simp [selEff, hne]
     rw [e2] at h1
-    rw [e1, e2, e3]
-    exact ⟨by omega, Or.inr (by omega)⟩
+    have e1 : selShrink cfg m = some (m - 1) := by
+      unfold selShrink
+      rw [if_neg he, hw.step]
+      rcases hw.floor with hf | hf <;> rw [hf]
+      · simp only []; rw [if_neg (by omega)]
+    have e3 : selEff cfg (m - 1) = m - 1 := by simp [selEff, hne]
+    exact ⟨m - 1, e1, by rw [e2, e3]; omega, Or.inr (by omega)⟩
+
+/-- with the floor, the request length 1 is the last one: the next CAh is RetryError -/
+theorem selShrink_floor (hw : cfg.Wf) (hfloor : cfg.floor = some 0) (m : Nat) (hne : m ≠ cfg.entire)
+    (h1 : selEff cfg m ≤ 1) : selShrink cfg m = none := by
+  have e2 : selEff cfg m = m := by simp [selEff, hne]
+  rw [e2] at h1
+  unfold selShrink
+  rw [if_neg hne, hfloor, hw.step]
+  simp only []
+  rw [if_pos (by omega)]
 
 theorem selLen_range (hw : cfg.Wf) (m off : Nat) (hoff : off < cfg.recLen) (h1 : 1 ≤ selEff cfg m) :
     1 ≤ selLen cfg m off ∧ (off + selLen cfg m off ≤ cfg.recLen ∨ selLen cfg m off = cfg.entire) := by
@@ -154,7 +169,8 @@ theorem selEntry_core (hw : cfg.Wf) (hdev : SelStorage cfg mk nextOf pay base re
       · rw [if_pos hs]
         subst hs
         obtain ⟨hS', hlen⟩ := few_erase φ _ n S hS hn
-        obtain ⟨e1, e2⟩ := selEff_shrink cfg hw m hm (by omega)
+        obtain ⟨m', e0, e1, e2⟩ := selEff_shrink cfg hw m hm (by omega)
+        rw [e0]
         exact ih _ acc (S.erase n) (n + 1) e2 hS' (by omega) hacc hlt (by omega)
       · rw [if_neg hs, if_pos hc]
         exact safeAny_inj _ _ c ⟨n, hn⟩
@@ -175,18 +191,78 @@ theorem selEntry_core (hw : cfg.Wf) (hdev : SelStorage cfg mk nextOf pay base re
         obtain ⟨hb1, hb2⟩ := hb hdone
         exact ih m _ S (n + 1) hm (few_weaken φ _ n S hS) hB hb1 (by omega) (by omega)
 
-/-- get_sel_entry under any fault set with at most `full` (16) answers CAh. -/
+/-- The loop from any state under ANY fault set, where max_req_len has its floor: however many
+requests are answered with the shrink code, the loop ends - with RetryError once the length 1 has
+been refused. -/
+theorem selEntry_core_floor (hw : cfg.Wf) (hfloor : cfg.floor = some 0)
+    (hdev : SelStorage cfg mk nextOf pay base rec nx)
+    (φ : Nat → Option Nat) (hφ : NonZero φ)
+    (fuel m : Nat) (acc : List Nat) (n : Nat)
+    (hm : m = cfg.entire ∨ m < cfg.entire) (h1 : 1 ≤ selEff cfg m)
+    (hacc : acc = rec.take acc.length) (hlt : acc.length < cfg.recLen)
+    (hf : (cfg.recLen - acc.length) + selEff cfg m ≤ fuel) :
+    SafeAny (Inj φ) (fin rec nx) (outcome (selEntry cfg mk nextOf pay fin fuel m acc) (faultsDev base φ) n) := by
+  induction fuel generalizing m acc n with
+  | zero => omega
+  | succ f ih =>
+    rw [outcome_selEntry_succ, faultsDev_fst]
+    cases hn : φ n with
+    | some c =>
+      rw [faultsDev_snd_some _ _ _ _ _ hn]
+      have hc := hφ n c hn
+      unfold selStep
+      show SafeAny _ _ (outcome (if c = cfg.shrink then _ else if c ≠ 0 then _ else _) _ _)
+      by_cases hs : c = cfg.shrink
+      · rw [if_pos hs]
+        by_cases h2 : 2 ≤ selEff cfg m
+        · obtain ⟨m', e0, e1, e2⟩ := selEff_shrink cfg hw m hm h2
+          rw [e0]
+          exact ih m' acc (n + 1) e2 (by omega) hacc hlt (by omega)
+        · have hne : m ≠ cfg.entire := by
+            intro he
+            have : selEff cfg m = cfg.full + 1 := by simp [selEff, he]
+            have := hw.full_pos
+            omega
+          rw [selShrink_floor cfg hw hfloor m hne (by omega)]
+          exact safeAny_retry _ _
+      · rw [if_neg hs, if_pos hc]
+        exact safeAny_inj _ _ c ⟨n, hn⟩
+    | none =>
+      rw [faultsDev_snd_none _ _ _ _ hn]
+      obtain ⟨hrec, hserve⟩ := hdev
+      obtain ⟨r1, r2⟩ := selLen_range cfg hw m acc.length hlt h1
+      obtain ⟨d0, d1, d2⟩ := hserve acc.length _ hlt r1 r2
+      unfold selStep
+      have hs : ¬ (base (mk acc.length (selLen cfg m acc.length))).cc = cfg.shrink := by
+        rw [d0]; exact fun h => hw.shrink h.symm
+      rw [if_neg hs, if_neg (by rw [d0]; simp), d1, d2]
+      obtain ⟨ha, hb⟩ := sel_served cfg rec acc _ hrec hacc r1
+      by_cases hdone : cfg.recLen ≤ (acc ++ (rec.drop acc.length).take (selLen cfg m acc.length)).length
+      · rw [if_pos hdone, ha hdone, outcome_ofRes]
+        exact safeAny_same _ _
+      · rw [if_neg hdone]
+        obtain ⟨hb1, hb2⟩ := hb hdone
+        exact ih m _ (n + 1) hm h1 hb1 (by omega) (by omega)
+
+/-- The fault sets get_sel_entry is safe under: every one where max_req_len has its floor (today's
+source: Props.C13.source_variant), those with at most `full` (16) answers CAh where it has none. -/
+def SelFaults (cfg : SelCfg) (φ : Nat → Option Nat) : Prop :=
+  cfg.floor = some 0 ∨ Few cfg.shrink cfg.full φ
+
+/-- get_sel_entry under any fault set (with the floor) / any with at most 16 answers CAh (without). -/
 theorem selEntry_ms (hw : cfg.Wf) (hdev : SelStorage cfg mk nextOf pay base rec nx)
     (hpos : 1 ≤ cfg.recLen) (fuel : Nat) (hf : cfg.recLen + cfg.full + 1 ≤ fuel) :
-    MultiSafeOn (Few cfg.shrink cfg.full) base (getSelEntry cfg mk nextOf pay fin fuel) := by
+    MultiSafeOn (SelFaults cfg) base (getSelEntry cfg mk nextOf pay fin fuel) := by
   intro φ hφ hfew n
-  obtain ⟨S, hlen, hS⟩ := hfew
   have he : selEff cfg cfg.entire = cfg.full + 1 := by simp [selEff]
   unfold getSelEntry
   rw [selEntry_exact cfg mk nextOf pay fin base rec nx hw hdev fuel cfg.entire [] n
     (by rw [he]; omega) (by simp) (by simp; omega) (by simp; omega)]
-  exact selEntry_core cfg mk nextOf pay fin base rec nx hw hdev φ hφ fuel cfg.entire [] S n (Or.inl rfl)
-    (fun k _ hk => hS k hk) (by rw [he]; omega) (by simp) (by simp; omega) (by rw [he]; simp; omega)
+  rcases hfew with hfloor | ⟨S, hlen, hS⟩
+  · exact selEntry_core_floor cfg mk nextOf pay fin base rec nx hw hfloor hdev φ hφ fuel cfg.entire [] n
+      (Or.inl rfl) (by rw [he]; omega) (by simp) (by simp; omega) (by rw [he]; simp; omega)
+  · exact selEntry_core cfg mk nextOf pay fin base rec nx hw hdev φ hφ fuel cfg.entire [] S n (Or.inl rfl)
+      (fun k _ hk => hS k hk) (by rw [he]; omega) (by simp) (by simp; omega) (by rw [he]; simp; omega)
 
 end sel
 
@@ -262,90 +338,125 @@ end list
 /-! ### get_and_clear_sel_entry -/
 section gac
 variable {β : Type} (cancel : Nat) (reserve : Prog Nat) (entry : Nat → Prog β) (del : Nat → Req)
-  (base : Req → Rsp)
+  (exh : Err) (base : Req → Rsp)
 
 theorem getAndClear_succ (f : Nat) :
-    getAndClear cancel reserve entry del (f + 1) =
+    getAndClear cancel reserve entry del exh (f + 1) =
       reserve.bind fun res =>
         (entry res).tryCc.bind fun x =>
-          gacStep cancel (getAndClear cancel reserve entry del f) x fun e =>
+          gacStep cancel (getAndClear cancel reserve entry del exh f) x fun e =>
             (sendChecked (del res)).tryCc.bind fun y =>
-              gacStep cancel (getAndClear cancel reserve entry del f) y fun _ => .done e := rfl
+              gacStep cancel (getAndClear cancel reserve entry del exh f) y fun _ => .done e := rfl
 
 /-- Fault-free, with reserve / read / delete all answered OK: the entry, after one round. -/
 theorem getAndClear_exact (res : Nat) (e : β)
     (hres : ∀ n, outcome reserve (pureDev base) n = .ok res)
     (hentry : ∀ n, outcome (entry res) (pureDev base) n = .ok e)
     (hdel : (base (del res)).cc = 0) (f n : Nat) :
-    outcome (getAndClear cancel reserve entry del (f + 1)) (pureDev base) n = .ok e := by
+    outcome (getAndClear cancel reserve entry del exh (f + 1)) (pureDev base) n = .ok e := by
   rw [getAndClear_succ, outcome_bind_ok (hres n), outcome_try_bind_ok (hentry _)]
   show outcome ((sendChecked (del res)).tryCc.bind _) _ _ = _
   rw [outcome_try_bind_ok (outcome_sendChecked_pure base _ _ hdel)]
   rfl
 
-/-- get_and_clear_sel_entry under any fault set whose faults lie below position `N`, with
-more fuel than that (the Python loop has no bound): error carrying an injected code, or the
-entry.  `reserve` issues at least one request. -/
+/-- One round of the loop under a fault set, given what the rest of the loop does (`hrest`: safe from
+every later position).  Shared by the two termination arguments below. -/
+theorem getAndClear_round (Φ : (Nat → Option Nat) → Prop) (res : Nat) (e : β)
+    (hreserve : MultiSafeOn Φ base reserve)
+    (hres : ∀ n, outcome reserve (pureDev base) n = .ok res)
+    (hsafe : MultiSafeOn Φ base (entry res))
+    (hentry : ∀ n, outcome (entry res) (pureDev base) n = .ok e)
+    (hdel : (base (del res)).cc = 0)
+    (φ : Nat → Option Nat) (hφ : NonZero φ) (hΦ : Φ φ) (f n : Nat)
+    (hrest : ∀ n', n < n' →
+      SafeAny (Inj φ) (.ok e) (outcome (getAndClear cancel reserve entry del exh f) (faultsDev base φ) n'))
+    (hadv : ∀ φ n, n < final reserve (faultsDev base φ) n) :
+    SafeAny (Inj φ) (.ok e) (outcome (getAndClear cancel reserve entry del exh (f + 1)) (faultsDev base φ) n) := by
+  rw [getAndClear_succ]
+  rcases hreserve φ hφ hΦ n with ⟨c, hc, h⟩ | h | h | h
+  · rw [outcome_bind_error h]; exact safeAny_inj _ _ c hc
+  · rw [outcome_bind_error h]; exact safeAny_retry _ _
+  · rw [outcome_bind_error h]; exact safeAny_hpm _ _
+  · rw [hres n] at h
+    rw [outcome_bind_ok h]
+    have h1 := hadv φ n
+    generalize final reserve (faultsDev base φ) n = n1 at h1 ⊢
+    have h2 := final_faults_mono base φ (entry res) n1
+    rcases hsafe φ hφ hΦ n1 with ⟨c, hc, he⟩ | he | he | he
+    · rw [outcome_try_bind_cc he]
+      show SafeAny _ _ (outcome (if c = cancel then _ else _) _ _)
+      by_cases hcc : c = cancel
+      · rw [if_pos hcc]; exact hrest _ (by omega)
+      · rw [if_neg hcc]; exact safeAny_inj _ _ c hc
+    · rw [outcome_try_bind_err he (fun c => by simp)]; exact safeAny_retry _ _
+    · rw [outcome_try_bind_err he (fun c => by simp)]; exact safeAny_hpm _ _
+    · rw [hentry n1] at he
+      rw [outcome_try_bind_ok he]
+      generalize final (entry res) (faultsDev base φ) n1 = n2 at h2 ⊢
+      show SafeAny _ _ (outcome ((sendChecked (del res)).tryCc.bind _) _ _)
+      cases hn2 : φ n2 with
+      | some c =>
+        have hc := hφ n2 c hn2
+        rw [outcome_try_bind_cc (outcome_sendChecked_fault base φ n2 c _ hn2 hc), final_sendChecked,
+          faultsDev_fst]
+        show SafeAny _ _ (outcome (if c = cancel then _ else _) _ _)
+        by_cases hcc : c = cancel
+        · rw [if_pos hcc]; exact hrest _ (by omega)
+        · rw [if_neg hcc]; exact safeAny_inj _ _ c ⟨n2, hn2⟩
+      | none =>
+        rw [outcome_try_bind_ok (outcome_sendChecked_none base φ n2 _ hn2 hdel)]
+        exact safeAny_same _ _
+
+/-- The fault sets get_and_clear_sel_entry is safe under, given how it ends when its rounds are used
+up: every one (admitted by `Φ`) when that is RetryError - the loop has a retry budget -, else those
+whose faults lie below a position `N` the fuel exceeds (the pinned `while True` has no bound). -/
+def GacFaults (Φ : (Nat → Option Nat) → Prop) (exh : Err) (N fuel : Nat) (φ : Nat → Option Nat) : Prop :=
+  Φ φ ∧ (exh = .retryError ∨ (Below N φ ∧ N + 1 ≤ fuel))
+
+/-- get_and_clear_sel_entry under any fault set: error carrying an injected code, RetryError (the
+budget is used up), or the entry.  `reserve` issues at least one request. -/
 theorem getAndClear_ms (Φ : (Nat → Option Nat) → Prop) (res : Nat) (e : β)
     (hreserve : MultiSafeOn Φ base reserve)
     (hres : ∀ n, outcome reserve (pureDev base) n = .ok res)
     (hadv : ∀ φ n, n < final reserve (faultsDev base φ) n)
     (hsafe : MultiSafeOn Φ base (entry res))
     (hentry : ∀ n, outcome (entry res) (pureDev base) n = .ok e)
-    (hdel : (base (del res)).cc = 0) (N fuel : Nat) (hf : N + 1 ≤ fuel) :
-    MultiSafeOn (fun φ => Φ φ ∧ Below N φ) base (getAndClear cancel reserve entry del fuel) := by
-  intro φ hφ ⟨hΦ, hN⟩ n
-  have hgood : ∀ f m, outcome (getAndClear cancel reserve entry del (f + 1)) (pureDev base) m = .ok e :=
-    fun f m => getAndClear_exact cancel reserve entry del base res e hres hentry hdel f m
-  obtain ⟨f0, rfl⟩ : ∃ f0, fuel = f0 + 1 := ⟨fuel - 1, by omega⟩
-  rw [hgood]
-  -- the loop from any position, with enough fuel to get past the last fault
-  suffices h : ∀ f n, (N - n) + 1 ≤ f →
-      SafeAny (Inj φ) (.ok e) (outcome (getAndClear cancel reserve entry del f) (faultsDev base φ) n) from
-    h (f0 + 1) n (by omega)
-  intro f
-  induction f with
-  | zero => intro n h; omega
-  | succ f ih =>
-    intro n hfuel
-    by_cases hpast : N ≤ n
-    · rw [outcome_faults_past base φ _ n (fun k hk => hN k (by omega)), hgood]
-      exact safeAny_same _ _
-    · have hfpos : (N - (n + 1)) + 1 ≤ f := by omega
-      rw [getAndClear_succ]
-      rcases hreserve φ hφ hΦ n with ⟨c, hc, h⟩ | h | h | h
-      · rw [outcome_bind_error h]; exact safeAny_inj _ _ c hc
-      · rw [outcome_bind_error h]; exact safeAny_retry _ _
-      · rw [outcome_bind_error h]; exact safeAny_hpm _ _
-      · rw [hres n] at h
-        rw [outcome_bind_ok h]
-        have h1 := hadv φ n
-        generalize final reserve (faultsDev base φ) n = n1 at h1 ⊢
-        have h2 := final_faults_mono base φ (entry res) n1
-        rcases hsafe φ hφ hΦ n1 with ⟨c, hc, he⟩ | he | he | he
-        · rw [outcome_try_bind_cc he]
-          show SafeAny _ _ (outcome (if c = cancel then _ else _) _ _)
-          by_cases hcc : c = cancel
-          · rw [if_pos hcc]; exact ih _ (by omega)
-          · rw [if_neg hcc]; exact safeAny_inj _ _ c hc
-        · rw [outcome_try_bind_err he (fun c => by simp)]; exact safeAny_retry _ _
-        · rw [outcome_try_bind_err he (fun c => by simp)]; exact safeAny_hpm _ _
-        · rw [hentry n1] at he
-          rw [outcome_try_bind_ok he]
-          generalize final (entry res) (faultsDev base φ) n1 = n2 at h2 ⊢
-          show SafeAny _ _ (outcome ((sendChecked (del res)).tryCc.bind _) _ _)
-          cases hn2 : φ n2 with
-          | some c =>
-            have hc := hφ n2 c hn2
-            rw [outcome_try_bind_cc (outcome_sendChecked_fault base φ n2 c _ hn2 hc), final_sendChecked,
-              faultsDev_fst]
-            show SafeAny _ _ (outcome (if c = cancel then _ else _) _ _)
-            by_cases hcc : c = cancel
-            · rw [if_pos hcc]; exact ih _ (by omega)
-            · rw [if_neg hcc]; exact safeAny_inj _ _ c ⟨n2, hn2⟩
-          | none =>
-            rw [outcome_try_bind_ok (outcome_sendChecked_none base φ n2 _ hn2 hdel)]
-            exact safeAny_same _ _
+    (hdel : (base (del res)).cc = 0) (N fuel : Nat) :
+    MultiSafeOn (GacFaults Φ exh N fuel) base (getAndClear cancel reserve entry del exh fuel) := by
+  intro φ hφ ⟨hΦ, hcase⟩ n
+  have hgood : ∀ f m, outcome (getAndClear cancel reserve entry del exh (f + 1)) (pureDev base) m = .ok e :=
+    fun f m => getAndClear_exact cancel reserve entry del exh base res e hres hentry hdel f m
+  rcases hcase with hexh | ⟨hN, hf⟩
+  · -- a retry budget: induction on it, exhaustion is RetryError
+    subst hexh
+    have key : ∀ f n, SafeAny (Inj φ) (.ok e)
+        (outcome (getAndClear cancel reserve entry del .retryError f) (faultsDev base φ) n) := by
+      intro f
+      induction f with
+      | zero => intro n; exact safeAny_retry _ _
+      | succ f ih =>
+        intro n
+        exact getAndClear_round cancel reserve entry del .retryError base Φ res e hreserve hres hsafe hentry hdel
+          φ hφ hΦ f n (fun n' _ => ih n') hadv
+    cases fuel with
+    | zero => exact safeAny_same _ _
+    | succ f0 => rw [hgood]; exact key (f0 + 1) n
+  · obtain ⟨f0, rfl⟩ : ∃ f0, fuel = f0 + 1 := ⟨fuel - 1, by omega⟩
+    rw [hgood]
+    -- the loop from any position, with enough fuel to get past the last fault
+    suffices h : ∀ f n, (N - n) + 1 ≤ f →
+        SafeAny (Inj φ) (.ok e) (outcome (getAndClear cancel reserve entry del exh f) (faultsDev base φ) n) from
+      h (f0 + 1) n (by omega)
+    intro f
+    induction f with
+    | zero => intro n h; omega
+    | succ f ih =>
+      intro n hfuel
+      by_cases hpast : N ≤ n
+      · rw [outcome_faults_past base φ _ n (fun k hk => hN k (by omega)), hgood]
+        exact safeAny_same _ _
+      · exact getAndClear_round cancel reserve entry del exh base Φ res e hreserve hres hsafe hentry hdel
+          φ hφ hΦ f n (fun n' hn' => ih n' (by omega)) hadv
 
 end gac
 
